@@ -140,6 +140,28 @@ pub fn decode(qt: QT, bits: u32) -> Dec {
     Dec::Val { neg, m, e: scale - fb as i32, scale }
 }
 
+/// (negative, regime run length, exponent value) of a real non-zero posit pattern
+pub fn fields(qt: QT, bits: u32) -> Option<(bool, u32, u32)> {
+    let n = qt.n();
+    let bits = bits & qt.mask();
+    if bits == 0 || bits == qt.nar() {
+        return None;
+    }
+    let neg = (bits >> (n - 1)) & 1 != 0;
+    let mag = if neg { qt.neg_bits(bits) } else { bits };
+    let body = mag & (qt.nar() - 1);
+    let r0 = (body >> (n - 2)) & 1;
+    let mut rl = 0u32;
+    while rl < n - 1 && ((body >> (n - 2 - rl)) & 1) == r0 {
+        rl += 1;
+    }
+    let e = match decode(qt, bits) {
+        Dec::Val { scale, .. } => scale.rem_euclid(1 << qt.es()) as u32,
+        _ => 0,
+    };
+    Some((neg, rl | (r0 << 6), e))
+}
+
 /// Exact value of one posit in quire units (2^-F); None for NaR.
 pub fn posit_units(qt: QT, p: u32) -> Option<Wide> {
     match decode(qt, p) {
